@@ -372,7 +372,7 @@ pub fn run(ctx: Ctx) -> i32 {
     report.run_probes(&replay);
     let tier = ctx.tier;
     let shards = 64u64;
-    let cases = tier.pick(600u32, 8_000u32);
+    let cases = tier.pick(2400u32, 8_000u32);
     let bad = run_in_workers(&report, 16, std::time::Duration::from_secs(tier.pick(600, 7200)), &|report: &Report| {
         report.ctx.my_shards(shards).par_iter().for_each(|&shard| {
             if report.too_many_violations() {
